@@ -89,59 +89,264 @@ STATUS_KANI = [
       reproducer="\"99\".parse::<wtransport_proto::ids::StatusCode>()"),
 ]
 
-FRAME_KANI = [
+GREASE_NOTE = "GREASE test abstracted by an uninterpreted function (kani/proto/oracle.rs); its identity with the RFC predicate is the separate obligation c_*_is_id_exercise / c_settingid_is_exercise"
+
+FRAME_KIND_KANI = [
     K("c_framekind_is_id_exercise", "FrameKind::is_id_exercise == RFC 9114 GREASE predicate 0x1f*N+0x21, all 2^62 ids", [P + "frame.rs::FrameKind::is_id_exercise"]),
-    K("c_framekind_parse", "FrameKind::parse: four registered types, GREASE kept with id, else unknown (exact arithmetic)", [P + "frame.rs::FrameKind::parse"]),
+    K("c_framekind_parse", "FrameKind::parse: four registered types, GREASE kept with id, else unknown (exact arithmetic, all 2^62 ids)", [P + "frame.rs::FrameKind::parse"]),
     K("c_framekind_id", "FrameKind::id is the registry value whose parse is the kind", [P + "frame.rs::FrameKind::id"]),
     K("p_framekind_id_parse_inverse", "parse(id(k)) == k; registry constants 0/1/4/0x41; parse limit 4096", [P + "frame.rs::frame_kind_ids::*"]),
     K("p_grease_facts", "facts assumed by the uninterpreted GREASE oracle hold for the RFC predicate", []),
 ]
 
-FRAME_READ_20 = K("p_frame_read_matches_reference_20",
-                  "every byte string <= 20 bytes: Frame::read and read_from_buffer == reference parser (value / need-more / error class, exact consumption, unknown frames consumed whole, offset moves only on success)",
-                  [P + "frame.rs::Frame::read", P + "frame.rs::Frame::read_from_buffer", P + "frame.rs::Frame::{new,new_webtransport,kind,payload,session_id}"],
-                  reproducer="wtransport_proto::frame::Frame::read(&mut &[0x07u8, 0x01, 0x00][..]) then inspect the reader: only 1 byte consumed")
+STREAM_KIND_KANI = [
+    K("c_streamkind_is_id_exercise", "StreamKind::is_id_exercise == RFC 9114 GREASE predicate, all 2^62 ids", [P + "stream_header.rs::StreamKind::is_id_exercise"]),
+    K("c_streamkind_parse", "StreamKind::parse: control/QPACK enc/QPACK dec/WT (0/2/3/0x54), GREASE kept, else unknown", [P + "stream_header.rs::StreamKind::parse"]),
+    K("c_streamkind_id", "StreamKind::id is the registry value whose parse is the kind", [P + "stream_header.rs::StreamKind::id"]),
+    K("p_streamkind_id_parse_inverse", "parse(id(k)) == k; registry constants; MAX_SIZE", [P + "stream_header.rs::stream_type_ids::*"]),
+]
 
-QPACK_INT_KANI = [
+SETTING_ID_KANI = [
+    K("c_settingid_is_exercise", "SettingId::is_exercise == RFC GREASE predicate, all 2^62 ids", [P + "settings.rs::SettingId::is_exercise"]),
+    K("c_settingid_is_reserved", "in-place contract: reserved <=> HTTP/2 ids {0,2,3,4,5}", [P + "settings.rs::SettingId::is_reserved"]),
+    K("c_settingid_parse", "SettingId::parse: reserved -> ReservedSetting, GREASE kept, seven registered ids, else UnknownSetting (ignored)", [P + "settings.rs::SettingId::parse"]),
+    K("c_settingid_id", "SettingId::id registry values (0x01,0x06,0x07,0x08,0x33,0x2b603742,0xc671706a); parse(id(s)) == s", [P + "settings.rs::SettingId::id", P + "settings.rs::setting_ids::*"]),
+]
+
+FRAME_READ_20 = K("p_frame_read_matches_reference_20",
+                  "every byte string <= 20 bytes: Frame::read and read_from_buffer == reference parser (value / need-more / error class, exact consumption, unknown frames consumed whole, zero-copy payload, offset moves only on success)",
+                  [P + "frame.rs::Frame::read", P + "frame.rs::Frame::read_from_buffer", P + "frame.rs::Frame::{new,new_webtransport,kind,payload,session_id}"],
+                  reproducer="wtransport_proto::frame::Frame::read(&mut &[0x25u8, 0x40, 0x00][..]) then inspect the reader: 1 byte consumed instead of 3")
+FRAME_READ_4200 = K("p_frame_read_matches_reference_4200",
+                    "same contract on every byte string <= 4200 bytes: the 4096-byte parse limit is reachable with a complete frame",
+                    [P + "frame.rs::Frame::read", P + "frame.rs::Frame::read_from_buffer"], tier="thorough")
+
+FRAME_WRITE_KANI = [
+    K("p_frame_write_roundtrip_8", "all kinds/ids/session ids, payload <= 8, all capacities: write_size exact, write_to_buffer all-or-nothing == RFC bytes, read(write(f)) == f",
+      [P + "frame.rs::Frame::{write,write_to_buffer,write_size,new_data,new_headers,new_settings,new_exercise,new_webtransport}"],
+      kind="bounded", bound="payload length <= 8 (header part complete: all 2^62 ids / session ids)"),
+    K("p_frame_write_roundtrip_70", "same, payload <= 70 (crosses the 63/64 length-varint boundary)",
+      [P + "frame.rs::Frame::{write,write_to_buffer,write_size}"], kind="bounded", bound="payload length <= 70", tier="thorough"),
+    K("p_frame_write_plain", "Frame::write into a BufferWriter: Err iff capacity < write_size, output == RFC bytes",
+      [P + "frame.rs::Frame::write"], kind="bounded", bound="payload length <= 4"),
+]
+
+STREAM_HEADER_KANI = [
+    K("p_stream_header_read_matches_reference", "every byte string <= 17 bytes: StreamHeader::read / read_from_buffer == reference (value, need-more, UnknownStream, InvalidSessionId; exact consumption <= 16; a following application byte is never taken)",
+      [P + "stream_header.rs::StreamHeader::read", P + "stream_header.rs::StreamHeader::read_from_buffer", P + "stream_header.rs::StreamHeader::{new,kind,session_id}"]),
+    K("p_stream_header_write_roundtrip", "all kinds / session ids / capacities: write_size exact, write_to_buffer all-or-nothing == RFC bytes, read(write(h)) == h",
+      [P + "stream_header.rs::StreamHeader::{write,write_to_buffer,write_size,new_control,new_webtransport}"]),
+]
+
+STREAM_KANI_QUICK = [
+    K("p_rule_table_biremote", "peer-initiated bidi stream, arbitrary first_frame_done state: verdict == RFC 9114 7.2 / WT draft rule table, error code prescribed, state updated; optional leading unknown frame skipped whole",
+      [P + "stream.rs::biremote::StreamBiRemoteH3::{read_frame,validate_frame}", P + "stream.rs::types::H3::{new,set_first_frame}"],
+      kind="bounded", bound="one frame of each kind (GREASE ids < 2^25, payload <= 3) preceded by at most one unknown frame"),
+    K("p_rule_table_bilocal", "locally-initiated bidi stream: same", [P + "stream.rs::bilocal::StreamBiLocalH3::{read_frame,validate_frame}"],
+      kind="bounded", bound="as above"),
+    K("p_rule_table_unicontrol", "peer control / QPACK / GREASE uni stream: same", [P + "stream.rs::uniremote::StreamUniRemoteH3::{read_frame,validate_frame,kind}"],
+      kind="bounded", bound="as above"),
+    K("p_rule_table_session", "established session stream: same", [P + "stream.rs::session::StreamSession::{read_frame,validate_frame}"],
+      kind="bounded", bound="as above"),
+    K("p_uniremote_upgrade", "every byte string <= 17: uniremote::upgrade == reference header parse; unknown type -> H3_STREAM_CREATION_ERROR, invalid session id -> H3_ID_ERROR, need-more returns the stream",
+      [P + "stream.rs::uniremote::StreamUniRemoteQuic::upgrade"]),
+    K("p_wt_upgrades_write_exact_preamble", "all session ids: WT upgrades write exactly varint(0x41|0x54) varint(session id) and keep the id",
+      [P + "stream.rs::bilocal::StreamBiLocalH3::{upgrade,upgrade_size}", P + "stream.rs::unilocal::StreamUniLocalQuic::{upgrade,upgrade_size}",
+       P + "stream.rs::unilocal::StreamUniLocalH3::upgrade", P + "stream.rs::uniremote::StreamUniRemoteH3::upgrade", P + "stream.rs::biremote::StreamBiRemoteH3::upgrade"]),
+]
+
+def _skip(name, role, buffered):
+    return K(name, "%s%s on EVERY byte string <= 14 bytes with at most one leading unknown frame, arbitrary first_frame_done: result == reference (unknown frame skipped whole, rule table, error codes, exact consumption%s)" % (
+        role, " (buffered)" if buffered else "", "; offset unchanged unless Some" if buffered else ""),
+        [P + "stream.rs::%s::read_frame%s" % (role, "_from_buffer" if buffered else "")],
+        tier="thorough", kind="bounded", bound="input <= 14 bytes, <= 1 leading unknown frame (base case + one induction step; the unbounded loop argument is Verus unit stream_skip)")
+
+STREAM_KANI_THOROUGH = [
+    _skip("p_read_frame_biremote_k1", "biremote", False), _skip("p_read_frame_bilocal_k1", "bilocal", False),
+    _skip("p_read_frame_unicontrol_k1", "uniremote", False), _skip("p_read_frame_session_k1", "session", False),
+    _skip("p_read_frame_buffered_biremote_k1", "biremote", True), _skip("p_read_frame_buffered_bilocal_k1", "bilocal", True),
+    _skip("p_read_frame_buffered_unicontrol_k1", "uniremote", True), _skip("p_read_frame_buffered_session_k1", "session", True),
+]
+
+QPACK_INT_DEC = [
     K("p_qpack_decode_integer_n%d" % n,
-      "every byte string <= 12 octets: decode_integer::<%d> == RFC 7541 5.1 (value, consumption, UnexpectedFin, IntegerOverflow iff > usize::MAX or > 10 continuation octets); no shift/add overflow" % n,
+      "every byte string <= 12 octets: decode_integer::<%d> == RFC 7541 5.1 (value, consumption, UnexpectedFin, IntegerOverflow iff > usize::MAX or > 10 continuation octets); no shift/add overflow; loop bounded by operand width" % n,
       [P + "qpack.rs::Decoder::decode_integer"],
-      reproducer="wtransport_proto::qpack::Decoder::decode([0x00, 0x00, 0xff, 0xff,0xff,0xff,0xff,0xff,0xff,0xff,0xff,0xff,0xff,0x01]) (debug build: panics 'attempt to shift left with overflow')")
+      reproducer="wtransport_proto::qpack::Decoder::decode([0x00,0x00,0xff,0xff,0xff,0xff,0xff,0xff,0xff,0xff,0xff,0xff,0xff,0x01])")
     for n in (3, 4, 6, 7, 8)
-] + [
+]
+QPACK_INT_ENC = [
     K("p_qpack_encode_integer_n%d" % n,
       "all usize values, all flags, all capacities: encode_integer::<%d> output == RFC 7541 5.1; decode(encode(v)) == v with exact consumption" % n,
       [P + "qpack.rs::Encoder::encode_integer", P + "qpack.rs::Decoder::decode_integer"])
     for n in (3, 4, 6, 7, 8)
 ]
+QPACK_MISC = [
+    K("p_qpack_field_line_type", "all 256 first bytes classified per RFC 9204 4.5; unreachable!() unreachable", [P + "qpack.rs::Decoder::decode_field_line_type"]),
+    K("p_qpack_static_table_is_rfc9204", "STATIC_TABLE == RFC 9204 Appendix A, all 99 rows; lookup_field total (None iff index >= 99)", [P + "qpack.rs::StaticTable::{STATIC_TABLE,lookup_field}"]),
+]
+QPACK_LOOKUP = K("p_qpack_lookup_index_sound", "lookup_index returns a row with the requested name (and value for KeyValue), None iff name absent",
+                 [P + "qpack.rs::StaticTable::lookup_index"], tier="thorough", kind="bounded", bound="14 listed (name, value) pairs incl. all WebTransport pseudo-headers")
 
-HOOK_COMMITS = ["940a808", "d1760cd"]
+DATAGRAM_KANI = [
+    K("c_datagram_header_size", "in-place contract (modular vs VarInt::size): header == varint length of the quarter stream id", [P + "datagram.rs::Datagram::header_size"]),
+    K("c_datagram_write_size", "in-place contract (modular vs header_size): write_size == header + payload", [P + "datagram.rs::Datagram::write_size"]),
+    K("p_datagram_roundtrip_16", "all qids, payload <= 16, all buffer sizes: write all-or-nothing == varint(qid)||payload, returns write_size; read(write(d)) == d, payload zero-copy",
+      [P + "datagram.rs::Datagram::{new,write,read,qstream_id,payload}"], kind="bounded", bound="payload length <= 16 (header complete: all qids)"),
+    K("p_datagram_roundtrip_1200", "same with payload <= 1200", [P + "datagram.rs::Datagram::{write,read}"], kind="bounded", bound="payload length <= 1200", tier="thorough"),
+    K("p_datagram_read_total", "every byte string <= 12: Ok iff complete varint <= 2^60-1, payload == rest; else H3_DATAGRAM_ERROR; no panic", [P + "datagram.rs::Datagram::read"]),
+]
+
+CAPSULE_KANI = [
+    K("c_capsulekind_parse", "in-place contract: Some <=> type == 0x2843", [P + "capsule/mod.rs::CapsuleKind::parse"]),
+    K("p_capsule_with_frame", "every DATA payload <= 16 bytes: Some iff varint(0x2843) varint(L) and >= L bytes; payload == the L declared bytes; unknown/GREASE capsule types and truncations -> None",
+      [P + "capsule/mod.rs::Capsule::with_frame"]),
+    K("p_close_wt_session_length_and_code", "payload lengths 0..=1030 (UTF-8 verdict arbitrary): Ok => 4 <= len <= 1028; code == big-endian first 4 bytes for all 2^32 codes; reason length len-4; errors are H3_DATAGRAM_ERROR",
+      [P + "capsule/close_wt_session.rs::CloseWebTransportSession::{with_capsule,error_code,reason}"]),
+    K("p_close_wt_session_reason_bytes", "real from_utf8: Ok iff len >= 4 and reason valid UTF-8; reason bytes unchanged",
+      [P + "capsule/close_wt_session.rs::CloseWebTransportSession::with_capsule"], tier="thorough", kind="bounded", bound="reason <= 4 bytes"),
+]
+
+ASYNC_LEAF_KANI = [
+    K("p_get_varint_new_establishes_invariant", "GetVarint::new establishes the invariant", [P + "bytes.rs::r#async::GetVarint::new"]),
+    K("p_get_varint_poll_step", "one poll from ANY invariant state, any chunk size / Pending / FIN / reset: invariant kept, bytes taken == bytes stored, never over-reads, Ready(Ok(v)) <=> exactly parse_size bytes taken and v == RFC value, ImmediateFin iff 0 bytes taken, UnexpectedFin iff >= 1",
+      [P + "bytes.rs::r#async::<GetVarint as Future>::poll"]),
+    K("p_get_buffer_poll_step", "same for GetBuffer (lengths 0..=8)", [P + "bytes.rs::r#async::<GetBuffer as Future>::poll"],
+      kind="bounded", bound="buffer length <= 8 (the step is length-independent: induction on bytes stored)"),
+    K("p_put_varint_poll_step", "PutVarint::new buffers exactly the RFC bytes; one poll from any progress writes only those bytes in order; Ready(Ok) iff all size(v) bytes are out",
+      [P + "bytes.rs::r#async::PutVarint::new", P + "bytes.rs::r#async::<PutVarint as Future>::poll"]),
+    K("p_put_buffer_poll_step", "same for PutBuffer (lengths 0..=8)", [P + "bytes.rs::r#async::<PutBuffer as Future>::poll"],
+      kind="bounded", bound="buffer length <= 8"),
+    K("p_io_error_mapping", "io::ErrorKind -> IoReadError/IoWriteError mapping", [P + "bytes.rs::r#async::{From<io::Error> for IoReadError, From<io::Error> for IoWriteError}"]),
+]
+
+MISC_KANI = [
+    K("c_error_code_to_code", "in-place contract: 15 error codes == IANA / draft registry values", [P + "error.rs::ErrorCode::to_code"]),
+    K("p_alpn_is_h3", "ALPN token is h3", [P + "lib.rs::WEBTRANSPORT_ALPN"]),
+]
+
+DRIVER_KANI = [
+    K("p_varint_conversions_identity", "quinn<->wtransport varint conversions are the identity on all 2^62 values; debug_asserts / unsafe preconditions discharged",
+      [D + "driver/utils.rs::{varint_q2w,varint_w2q}"], crate="driver"),
+    K("p_read_error_mapping", "quinn::ReadError -> StreamReadError: Reset(c) -> Reset(c) for all 62-bit c; other constructible variants -> documented arm",
+      [D + "driver/streams/mod.rs::<StreamReadError as From<quinn::ReadError>>::from"], crate="driver"),
+    K("p_write_error_mapping", "quinn::WriteError -> StreamWriteError: Stopped(c) -> Stopped(c) for all 62-bit c; other constructible variants -> documented arm",
+      [D + "driver/streams/mod.rs::<StreamWriteError as From<quinn::WriteError>>::from"], crate="driver"),
+]
+DRIVER_STREAMID = K("p_streamid_q2w", "quinn stream id -> StreamId keeps the value; classification and session-id admission per RFC 9000 2.1, all initiators/directions/indices",
+                    [D + "driver/utils.rs::streamid_q2w"], crate="driver")
+DRIVER_DGRAM_HDR = K("p_driver_datagram_header_size", "driver Datagram::header_size(session) == varint length of session/4", [D + "datagram.rs::Datagram::header_size"], crate="driver")
+
+HOOK_COMMITS = ["940a808", "d1760cd", "28c632f"]
+
+TECH = "contract-based deductive verification: Kani function contracts / full-domain loop-free harnesses on the real crates (in place, cfg(kani)) + Verus contracts on functions extracted mechanically from /repo"
 
 PROPS = {
-    "C17": {
+    "C01": {
         "level": "proof",
-        "claim": "Proof, for all 2^62 ids, of the identifier algebra: every function of ids.rs (classification, session-id admission, quarter-stream-id conversions, range, unsafe preconditions, debug_asserts) satisfies its contract against the RFC 9000 §2.1 reference, on two back ends independently (Kani in place, Verus on extracted text).",
-        "note": "Only the algebra is decided. Not decided: that the driver refuses foreign-session streams with BufferedStreamRejected and drops foreign datagrams (async over quinn). Trusted: compilers, Kani/CBMC, Verus/z3, spec transcription, extraction rewrites R1-R6.",
-        "explanation": "Identifier algebra only: every function of ids.rs under contract on both back ends, for all 2^62 ids.",
-        "kani": IDS_KANI,
-        "verus": [V("ids", pair=("proto", "p_qstream_session_inverse_real"))],
-        "not_decided": ["Driver::accept_uni/accept_bi/receive_datagram filtering of foreign sessions and the BufferedStreamRejected stop code (async over quinn)"],
+        "claim": "Preamble codec only: the WebTransport stream preamble (0x54 / 0x41 varint + session id varint) is written exactly and stripped exactly - encoders emit precisely those bytes for every session id, decoders (one-shot, buffered, and the async leaf futures under every chunking / Pending pattern by one-step induction) consume precisely those bytes and never a following application byte.",
+        "note": "Not decided: that quinn delivers stream bytes in order, the driver's tasks, concurrency between streams, flow control, the async composites (StreamHeader::read_async / Frame::read_async are sequential compositions of the verified leaf futures - async fn desugaring trusted).",
+        "kani": STREAM_HEADER_KANI + [STREAM_KANI_QUICK[4], STREAM_KANI_QUICK[5], FRAME_READ_20] + ASYNC_LEAF_KANI,
+        "verus": [],
+        "not_decided": ["in-order delivery (quinn)", "worker tasks / concurrency", "async composites beyond their leaf futures"],
+    },
+    "C03": {
+        "level": "proof",
+        "claim": "Datagram codec and size arithmetic: for every quarter stream id and payload the encoder emits varint(qid)||payload with the exact announced size (all-or-nothing), the decoder returns exactly the remaining bytes as payload (zero-copy) for every input, rejects ids > 2^60-1 / truncated ids with H3_DATAGRAM_ERROR, and the header overhead used for the size contract is exactly the varint length.",
+        "note": "Payload length bounded (16 quick / 1200 thorough) on Kani; header part complete. Assumed: quinn refuses exactly frames above its max_datagram_size; loss/reordering are transport behaviour. Not decided: Driver::receive_datagram session filtering (async).",
+        "kani": DATAGRAM_KANI + [DRIVER_DGRAM_HDR],
+        "verus": [],
+        "not_decided": ["quinn::Connection::send_datagram limit", "per-session filtering in the worker"],
+    },
+    "C04": {
+        "level": "proof",
+        "claim": "Capsule path only: a DATA payload is a CLOSE_WEBTRANSPORT_SESSION capsule iff type 0x2843 with a complete length; the close carries exactly the big-endian 32-bit code (all 2^32) and the reason bytes unchanged, is accepted iff 4 <= len <= 1028 and UTF-8, and every malformed capsule is a protocol error (H3_DATAGRAM_ERROR), never an application close.",
+        "note": "Not decided: ConnectStream::run (clean FIN => (0, ''), reset => protocol failure), Worker::run, From<quinn::ConnectionError> (async / need a quinn::Connection). UTF-8 validation trusted (core::str::from_utf8) beyond 4-byte reasons.",
+        "kani": CAPSULE_KANI,
+        "verus": [],
+        "not_decided": ["ConnectStream::run", "ApplicationClose from quinn::ConnectionError"],
+    },
+    "C06": {
+        "level": "proof",
+        "claim": "Code/arm mapping only: quinn reset/stop codes are converted to the application's Reset(c)/Stopped(c) unchanged for all 2^62 codes, other quinn error variants never become Reset/Stopped, and the varint conversions at the driver boundary are the identity.",
+        "note": "Everything else on this path is quinn (delivery of the signal, finish-acknowledged semantics). Variants carrying a quinn::ConnectionError (ConnectionLost) are not constructed (bytes::Bytes is out of CBMC's reach).",
+        "kani": DRIVER_KANI,
+        "verus": [],
+        "not_decided": ["finish/stopped futures over quinn", "signal delivery"],
     },
     "C11": {
         "level": "proof",
-        "claim": "wip",
-        "note": "wip",
-        "kani": QPACK_INT_KANI[:5],
+        "claim": "Every sans-IO decoder under contract is total and exact on EVERY byte string up to the stated length (at least one byte more than its longest header): varints, frames (incl. the 4096 limit in the thorough tier), stream headers, datagrams, capsules, close capsules, QPACK prefix integers (all widths, overflow is an error, loop bounded by operand width) and field-line types; no panic / arithmetic overflow / OOB on any path; returned ids respect their type invariants.",
+        "note": "Not under Kani contract (HashMap/String/Vec out of CBMC's reach): Decoder::decode field-line loop, decode_string, Settings::with_frame, Headers::with_frame - see Verus units where listed; httlib-huffman, String::from_utf8, HashMap trusted.",
+        "kani": [VARINT_KANI[2], VARINT_KANI[6], VARINT_KANI[7], VARINT_KANI[8], VARINT_KANI[9], FRAME_READ_20, FRAME_READ_4200, FRAME_KIND_KANI[1],
+                 STREAM_HEADER_KANI[0], STREAM_KIND_KANI[1], DATAGRAM_KANI[4], CAPSULE_KANI[0], CAPSULE_KANI[1], CAPSULE_KANI[2], CAPSULE_KANI[3]]
+                + QPACK_INT_DEC + QPACK_MISC + [IDS_KANI[4], IDS_KANI[7], SETTING_ID_KANI[2]],
         "verus": [],
+        "not_decided": ["Decoder::decode loop / decode_string / Settings::with_frame under Kani (containers)"],
+    },
+    "C12": {
+        "level": "proof",
+        "claim": "Sans-IO typestate layer: on each of the four stream roles, from an arbitrary first-frame state, the accept/reject verdict and the error code for every frame kind equal the RFC 9114 7.2 / WebTransport-draft rule table; invalid session ids -> H3_ID_ERROR, oversize -> H3_EXCESSIVE_LOAD, unknown uni stream type -> H3_STREAM_CREATION_ERROR; the 15 error codes and the reserved/registered setting ids equal their registry values.",
+        "note": "Quick tier: well-formed single frames (bounded). Thorough tier: every byte string <= 14 bytes. Not decided: the driver's reaction (RemoteSettingsStream::run, handle_uni_h3_stream, missing/duplicate SETTINGS, closed critical streams) - async over quinn.",
+        "kani": STREAM_KANI_QUICK[:5] + STREAM_KANI_THOROUGH + MISC_KANI[:1] + SETTING_ID_KANI[1:3],
+        "verus": [],
+        "not_decided": ["driver-level rules: missing/repeated SETTINGS, duplicated/closed critical streams, what is put on the wire"],
     },
     "C13": {
         "level": "proof",
-        "claim": "wip",
-        "note": "wip",
-        "kani": FRAME_KANI + [FRAME_READ_20],
+        "claim": "Frames, settings and capsules at the sans-IO layer: a frame of unknown type is consumed whole (type, length, payload) before it is reported, on EVERY byte string (complete), so the skip loops never re-read its content; GREASE predicates equal 0x1f*N+0x21 for all 2^62 ids and GREASE frames are returned whole; unknown setting ids parse to 'ignore'; unknown capsule types yield no capsule.",
+        "note": "Skip loop: Kani shows base case + one step per typestate (thorough tier, bounded); quick tier exercises one leading unknown frame on well-formed input. Unknown frames above the 4096-byte parse limit are refused like known ones (H3_EXCESSIVE_LOAD). Not decided: driver reactions to unknown unidirectional stream types (async).",
+        "kani": FRAME_KIND_KANI + [FRAME_READ_20, FRAME_READ_4200] + STREAM_KANI_QUICK[:4] + STREAM_KANI_THOROUGH[:4]
+                + [STREAM_KIND_KANI[0], SETTING_ID_KANI[0], SETTING_ID_KANI[2], CAPSULE_KANI[0], CAPSULE_KANI[1]],
         "verus": [],
+        "not_decided": ["unknown unidirectional stream types in the worker", "ConnectStream capsule loop"],
+    },
+    "C14": {
+        "level": "proof",
+        "claim": "Exact inverses with exact sizes for varints (all v < 2^62, all four reader/writer impls, shortest form, untouched-on-error), stream headers (complete), frame headers (complete) with payloads up to the stated bound, datagrams, and QPACK prefix integers (all usize values, all widths); the QPACK static table is RFC 9204 Appendix A.",
+        "note": "Frame/datagram payload length is bounded on Kani (8/70, 16/1200). Field sections and settings maps as wholes go through HashMap/iterators and are NOT claimed (Huffman codec, HashMap, Vec trusted).",
+        "kani": VARINT_KANI + FRAME_WRITE_KANI + [FRAME_READ_20, STREAM_HEADER_KANI[1], DATAGRAM_KANI[0], DATAGRAM_KANI[1], DATAGRAM_KANI[2], DATAGRAM_KANI[3]]
+                + QPACK_INT_ENC + [QPACK_MISC[1], QPACK_LOOKUP],
+        "verus": [V("ids", pair=("proto", "c_varint_size"))],
+        "not_decided": ["Headers::generate_frame <-> with_frame and Settings::generate_frame <-> with_frame as wholes"],
+    },
+    "C15": {
+        "level": "proof",
+        "claim": "One-shot and buffered decoders of frames and stream headers agree with one reference on EVERY byte string (so they agree with each other), need-more-data exactly on proper prefixes, buffered offset unchanged unless a value is returned; the four async leaf futures satisfy one-step inductive poll contracts from ANY state - every chunking and every Pending pattern - incl. ImmediateFin iff nothing was taken and UnexpectedFin iff something was.",
+        "note": "Unchecked assumption: async fn desugaring composes the awaits sequentially and keeps no state beyond the leaf futures', so chunking-independence lifts to Frame::read_async / StreamHeader::read_async / read_frame_async (the whole state machines do not scale in CBMC). GetBuffer/PutBuffer steps shown for lengths <= 8.",
+        "kani": [FRAME_READ_20, FRAME_READ_4200, STREAM_HEADER_KANI[0], VARINT_KANI[9]] + ASYNC_LEAF_KANI + STREAM_KANI_THOROUGH[4:],
+        "verus": [],
+        "not_decided": ["async composites as whole state machines"],
+    },
+    "C16": {
+        "level": "proof",
+        "claim": "Absolute wire format of the encoders against an independent RFC transcription (never the crate's decoder): frame / stream / setting / capsule / error-code registry values, ALPN h3, the QPACK static table == RFC 9204 Appendix A, WT preambles and datagram prefix == varint(0x41|0x54|qid) varint(session id), frame and stream-header encoders == RFC bytes, QPACK prefix integers == RFC 7541 5.1.",
+        "note": "Not under contract (HashMap iteration / sort closure / driver): exact content of the local SETTINGS frame, sorted_headers ordering (pseudo-headers first), Encoder::encode field-line choice beyond the integer/static-table primitives, 'exactly one control stream, SETTINGS first' (worker).",
+        "kani": [FRAME_KIND_KANI[3], STREAM_KIND_KANI[3], SETTING_ID_KANI[3]] + MISC_KANI + [QPACK_MISC[1]] + QPACK_INT_ENC[:2]
+                + [STREAM_KANI_QUICK[5], STREAM_HEADER_KANI[1], FRAME_WRITE_KANI[0], DATAGRAM_KANI[2], CAPSULE_KANI[0]],
+        "verus": [],
+        "not_decided": ["LocalSettingsStream content", "pseudo-header ordering", "Encoder::encode as a whole", "worker emission order"],
+    },
+    "C17": {
+        "level": "proof",
+        "claim": "Proof, for all 2^62 ids, of the identifier algebra: every function of ids.rs (classification, session-id admission, quarter-stream-id conversions, range, unsafe preconditions, debug_asserts) satisfies its contract against the RFC 9000 2.1 reference, on two back ends independently (Kani in place, Verus on extracted text); quinn stream ids convert unchanged.",
+        "note": "Only the algebra is decided. Not decided: that the driver refuses foreign-session streams with BufferedStreamRejected and drops foreign datagrams (async over quinn).",
+        "explanation": "Identifier algebra only: every function of ids.rs under contract on both back ends, for all 2^62 ids.",
+        "kani": IDS_KANI + [DRIVER_STREAMID, DATAGRAM_KANI[4]],
+        "verus": [V("ids", pair=("proto", "p_qstream_session_inverse_real"))],
+        "not_decided": ["Driver::accept_uni/accept_bi/receive_datagram filtering of foreign sessions and the BufferedStreamRejected stop code (async over quinn)"],
+    },
+    "C18": {
+        "level": "proof",
+        "claim": "StatusCode: every numeric constructor yields Ok(c) iff 100 <= v <= 599 with c == v (complete), is_successful iff 200..=299, FromStr accepts exactly decimal strings of values in 100..=599.",
+        "note": "FromStr bounded to strings <= 5 bytes (all u16 decimals; u16::from_str trusted beyond). Header-map admission predicates (SessionRequest/SessionResponse::try_from, reserved headers) are Verus units where listed. Not decided: SessionRequest::new (url crate), server refusal codes, connect()'s reaction (async driver).",
+        "kani": STATUS_KANI,
+        "verus": [],
+        "not_decided": ["SessionRequest::new / url crate", "driver reaction to refused requests"],
     },
 }
+for _p in PROPS.values():
+    _p.setdefault("technique", TECH)
 
 
 def assumption_scan():
